@@ -215,6 +215,8 @@ func Parse(input string) (*Tree, error) {
 // Parse begins parsing, returning an error, if any.
 func (t *Tree) Parse() error {
 	defer verifEvent("parse.ret", t.lex, "")
+	// Release the tokenizer when parsing ends before it has sent everything.
+	defer close(t.lex.done)
 	go t.lex.tokenize()
 	for {
 		n, err := t.parse()
